@@ -9,25 +9,56 @@ MC_CFG = '''CONSTANTS
   PeerScripts <- %(scripts)s
   MaxChunks = 2
   Dev = {}
-SPECIFICATION Spec
+SPECIFICATION MCSpec
 INVARIANT C10_OneCloseTag
 INVARIANT C10_NothingAfterClose
 INVARIANT C10_ClosedIffTag
 INVARIANT C10_SendersRefused
 INVARIANT C10_BothClosedAfterServe
+INVARIANT C10_ServeReturnsForCause
+INVARIANT C10_ServeRetTellsCause
 INVARIANT C05_Contiguous
 INVARIANT C05_NoStrayWrites
+INVARIANT C05_StaleHandleDead
 PROPERTY C05_WritesUnderLock
 PROPERTY C10_DeadlineKept
 PROPERTY C10_ReplacedDeadlineInert
 CHECK_DEADLOCK FALSE
 '''
 
+# closed token writers used again next to the other process's transmit calls and Close (no Serve; state constraint:
+# the close deadline, which plays no part without Serve, stays unset)
+MC_STALE_CFG = (MC_CFG % {"procs": '{"a", "b"}', "programs": "ProgramsStale", "scripts": "PeerScriptsNone"}).replace(
+    "CHECK_DEADLOCK FALSE", "CONSTRAINT NoDeadline\nCHECK_DEADLOCK FALSE")
+
 TX_KINDS = ["send", "sendel", "encode", "encodeel", "tw", "sendiqres", "sendmsgerr", "sendpreserr", "encodemsgerr",
             "encodeiqres", "encodepreserr"]
 # entry points that marshal a plain Go value BEFORE they take the output lock: two of them queued behind each
 # other must still each transmit their own content (a shared scratch buffer would mix them)
 MARSHAL_KINDS = ["encodemsgerr", "encodeiqres", "encodepreserr"]
+
+
+# the kinds of error a handler can return (Output.tla, Herr): plain, wrapping io.EOF, io.ErrUnexpectedEOF, stanza.Error,
+# context error, stream.Error, wrapped stream.Error - and a bare io.EOF
+HERR_ITEMS = ["stanza_herr", "stanza_herr_weof", "stanza_herr_ueof", "stanza_herr_st", "stanza_herr_ctx", "stanza_herr_se", "stanza_herr_wse", "stanza_heof"]
+# script items: dlset = the application calls SetCloseDeadline(far future), dlfire = that time arrives
+DLSET_SCRIPTS = [["dlset", "stanza", "close"], ["stanza", "dlset", "stanza_reply", "stanza", "close"], ["dlset", "stanza", "dlfire"],
+                 ["dlset", "stanza_reply", "stanza"], ["dlset", "stanza", "streamerr"], ["dlset", "stanza", "stanza_herr"],
+                 ["dlset", "stanza", "stanza", "close"], ["stanza", "dlset", "stanza", "dlfire"]]
+
+
+def stale_scenarios():
+    """a token writer that was closed is used again (Close once more - the explicit Close plus a deferred one -, tokens
+    written through it) at any later time: also while another goroutine, or the serve loop answering for a handler,
+    holds a NEW token writer or is inside any other transmit call, in the middle of its element (big payloads: several
+    transport writes per element). Two pre-emptions: after the Close, and inside the other one's element."""
+    out = []
+    for stale in ("twclose2", "twwrite2"):
+        for other in ("tw", "send"):
+            out.append({"procs": [{"name": "a", "calls": ["tw", stale]}, {"name": "b", "calls": [other]}], "serve": False, "script": [], "big": True, "maxpre": 2})
+        out.append({"procs": [{"name": "a", "calls": ["tw", stale]}], "serve": True, "script": ["stanza_reply"], "big": True, "maxpre": 2})
+    out.append({"procs": [{"name": "a", "calls": ["tw", "twclose2", "twwrite2", "tw"]}, {"name": "b", "calls": ["close"]}], "serve": False, "script": [], "big": False})
+    return out
 
 
 def scenarios(tier, focus):
@@ -60,6 +91,23 @@ def scenarios(tier, focus):
         # closes in time (Serve: nil) / never closes until the deadline in force passes (Serve: error)
         out.append({"procs": [{"name": "a", "calls": ["close"]}], "serve": True, "script": ["dl2", "dlold", "stanza_reply", "close"], "big": False, "maxruns": 8})
         out.append({"procs": [{"name": "a", "calls": ["close"]}], "serve": True, "script": ["dl2", "dlold", "dlfire"], "big": False, "maxruns": 4})
+        # the application calls SetCloseDeadline (a time virtual time has not reached) while Serve is running - or before
+        # it starts: the order of the call against Serve's start and against Serve's reading is part of the schedule -,
+        # the peer sends k >= 1 more top-level elements, and only THEN one of the reasons for Serve to return occurs: the
+        # peer's close, a stream error received, a handler error, the deadline passing, the end of the transport
+        # (Serve alone: every order of the call and of the peer's items against Serve's steps; then with a Close / a
+        # transmit call of another goroutine next to it)
+        for sc in DLSET_SCRIPTS:
+            out.append({"procs": [], "serve": True, "script": sc, "big": False})
+        for a, sc in ((["close"], DLSET_SCRIPTS[0]), (["close"], DLSET_SCRIPTS[2]), (["tx"], DLSET_SCRIPTS[3])):
+            out.append({"procs": [{"name": "a", "calls": a}], "serve": True, "script": sc, "big": False})
+        # the handler fails, with every kind of error a handler can return, while the peer's stream stays open: that is
+        # never the end of the peer's stream (Serve alone, the element first or after another one; then next to a Close)
+        for it in HERR_ITEMS:
+            out.append({"procs": [], "serve": True, "script": [it], "big": False})
+            out.append({"procs": [], "serve": True, "script": ["stanza", it, "stanza"], "big": False})
+        for it in ("stanza_herr_weof", "stanza_herr_se", "stanza_heof"):
+            out.append({"procs": [{"name": "a", "calls": ["close"]}], "serve": True, "script": [it], "big": False})
         out.append({"procs": [{"name": "a", "calls": ["sendc", "tx", "close"]}, {"name": "b", "calls": ["tx"]}], "serve": False, "script": [], "big": False})
         out.append({"procs": [{"name": "a", "calls": ["encodec"]}, {"name": "b", "calls": ["close"]}], "serve": True, "script": ["close"], "big": True})
         scripts = [[], ["close"], ["stanza_reply"], ["stanza_herr"], ["streamerr"], ["stanza_reply", "close"], ["stanza", "stanza_herr"]]
@@ -67,6 +115,9 @@ def scenarios(tier, focus):
             for sc in scripts:
                 out.append({"procs": [{"name": "a", "calls": a}], "serve": True, "script": sc, "big": False})
         if tier == "thorough":
+            for a in (["close"], ["tx"], ["tx", "close"]):
+                for sc in DLSET_SCRIPTS:
+                    out.append({"procs": [{"name": "a", "calls": a}], "serve": True, "script": sc, "big": False})
             for a, b, c in itertools.combinations_with_replacement([["close"], ["tx"], ["close", "tx"]], 3):
                 out.append({"procs": [{"name": "a", "calls": a}, {"name": "b", "calls": b}, {"name": "c", "calls": c}], "serve": False, "script": [], "big": False})
             for a, b in itertools.product([["close"], ["tx"]], repeat=2):
@@ -81,6 +132,7 @@ def scenarios(tier, focus):
         for ka, kb in itertools.combinations_with_replacement(MARSHAL_KINDS, 2):
             out.append({"procs": [{"name": "a", "calls": [ka]}, {"name": "b", "calls": [kb]}], "serve": False, "script": [], "big": ka == kb})
         out.append({"procs": [{"name": "a", "calls": ["tw"]}, {"name": "b", "calls": ["encodeiqres"]}, {"name": "c", "calls": ["encodemsgerr"]}], "serve": False, "script": [], "big": False})
+        out += stale_scenarios()
         if tier == "thorough":
             for a, b, c in itertools.combinations_with_replacement([["tx"], ["tx", "tx"]], 3):
                 out.append({"procs": [{"name": "a", "calls": a}, {"name": "b", "calls": b}, {"name": "c", "calls": c}], "serve": False, "script": [], "big": True})
@@ -99,7 +151,7 @@ def scenarios(tier, focus):
     return res
 
 
-def explore(ctx, scen, maxpre, maxruns=0, shards=None):
+def explore(ctx, scen, maxpre, maxruns=0, shards=None, choices=None):
     # scenarios that let real time go by run in a driver of their own (next to the others they slow whole shards down)
     slow = [s for s in scen if s.get("maxruns")]
     if slow and len(slow) < len(scen):
@@ -107,6 +159,7 @@ def explore(ctx, scen, maxpre, maxruns=0, shards=None):
         f2, s2 = explore(ctx, slow, maxpre, maxruns, len(slow))
         for k in ("traces", "events", "evaluations", "distinct", "stuck"):
             s1[k] += s2[k]
+        s1["crashes"] += s2["crashes"]
         return f1 + f2, s1
     if maxruns == 0 and ctx.tier == "thorough":
         # a budget of ~100 000 schedules in all (about 35 ms each, 16 shards): a few minutes
@@ -119,11 +172,14 @@ def explore(ctx, scen, maxpre, maxruns=0, shards=None):
             f.write(json.dumps(s) + "\n")
     procs = []
     for i in range(shards):
-        tr = ctx.path("out-trace-%d-%d.ndjson" % (len(scen), i))
+        explore.n = getattr(explore, "n", 0) + 1
+        tr = ctx.path("out-trace-%d-%d-%d.ndjson" % (len(scen), i, explore.n))
         env = dict(verif.GOENV, OUT_MAXPRE=str(maxpre), OUT_MAXRUNS=str(maxruns), OUT_SHARD="%d/%d" % (i, shards),
                    VERIF_SEED=str(ctx.seed), GOMAXPROCS="2")
+        if choices is not None:
+            env["OUT_CHOICES"] = json.dumps(choices)
         procs.append((tr, subprocess.Popen([b, "run", sf, tr], env=env, cwd=ctx.scratch, stdout=subprocess.PIPE, stderr=subprocess.STDOUT, text=True)))
-    summ = {"traces": 0, "events": 0, "evaluations": 0, "distinct": 0, "samples": [], "stuck": 0}
+    summ = {"traces": 0, "events": 0, "evaluations": 0, "distinct": 0, "samples": [], "stuck": 0, "crashes": []}
     files = []
     for tr, p in procs:
         try:
@@ -132,6 +188,14 @@ def explore(ctx, scen, maxpre, maxruns=0, shards=None):
             p.kill()
             raise verif.Undecided("output driver timed out")
         if p.returncode != 0 or "SUMMARY " not in out:
+            # a Go "fatal error" (e.g. unlock of an unlocked mutex) inside the library cannot be recovered by the driver:
+            # it takes the process down. The driver notes the schedule it is running in <trace>.cur beforehand; the crash
+            # is reported for that schedule, and the (incomplete) traces of this shard are left out.
+            fatal = re.search(r"fatal error: [^\n]*", out)
+            if fatal and "mellium.im/xmpp." in out and os.path.exists(tr + ".cur"):
+                at = out.index(fatal.group(0))
+                summ["crashes"].append({"fatal": fatal.group(0), "case": json.load(open(tr + ".cur")), "stack": out[at:at + 2500]})
+                continue
             raise verif.Undecided("output driver failed (exit %s):\n%s" % (p.returncode, out[-3000:]))
         s = json.loads(out[out.rindex("SUMMARY ") + 8:])
         for k in ("traces", "events", "evaluations", "distinct"):
@@ -166,7 +230,7 @@ def merge_traces(ctx, files, name="out-trace.ndjson"):
 def validate(ctx, trace, procs, dev=()):
     cfg = ("CONSTANTS\n  Procs = %s\n  Programs = {}\n  PeerScripts = {}\n  MaxChunks = 1000\n  Dev = %s\n" % (verif.tla_value(set(procs)), verif.tla_value(set(dev)))
            + "SPECIFICATION TSpec\nCONSTRAINT HW\nPOSTCONDITION Accepted\nCHECK_DEADLOCK FALSE\n")
-    r = ctx.tlc("TrOutput", cfg, files={"trace.ndjson": trace}, workers=1, timeout=2400, xss=True, deque=True)
+    r = ctx.tlc("TrOutput", cfg, files={"trace.ndjson": trace}, workers=1, timeout=2400, xss=True, deque=True, heap="6g")
     rejected = {}
     body = r.printed("REJECTED")
     if body:
